@@ -127,7 +127,7 @@ impl<T: Flt> Tracked<T> {
     pub fn new(cfg: &Cfg, sig: Signal, props: Props) -> Result<Tracked<T>, String> {
         let mut run = Runner::<T>::new(cfg, sig)?;
         let trk = Tracker::new(cfg, sig);
-        run.keep_out = (props.c06 && trk.instants) || props.c17;
+        run.keep_out = (props.c06 && trk.instants) || props.c17 || props.c13;
         let initial = if props.c10 {
             Some((run.state(), run.r.getters()))
         } else {
